@@ -456,6 +456,50 @@ pub fn run(ctx: &mut Ctx) {
         ctx.eval(Some(fnv64(&base)));
     });
 
+    // (b') wide messages: hundreds to thousands of tiny attributes (ordinary, unknown types,
+    // repeated MI / SHA256 / FINGERPRINT with right and wrong values), optionally mutated once
+    let n = ctx.n(120, 12_000);
+    ctx.cases("wide", n, |ctx, case, rng| {
+        use wire::WAttr;
+        let kpw = b"c03-password".to_vec();
+        let count = if ctx.profile == "miri" { 64 } else { *rng.pick(&[255usize, 256, 300, 700, 1500, 2700]) };
+        let mut attrs: Vec<WAttr> = Vec::with_capacity(count);
+        let mut bytes = 0usize;
+        let flavour = rng.below(4);
+        for i in 0..count {
+            let a = match (flavour, rng.below(8)) {
+                (0, _) | (_, 0..=3) => {
+                    let t = *rng.pick(&[wire::T_SOFTWARE, 0x0024, 0x0025, 0x8029, 0x7F00, 0xFFEE, 0x0006]);
+                    let l = rng.usize_below(6);
+                    WAttr::Raw(t, rng.bytes(l))
+                }
+                (1, _) | (_, 4) => WAttr::Mi(kpw.clone(), if rng.bool() { None } else { Some(1) }),
+                (2, _) | (_, 5) => WAttr::Mi256(kpw.clone(), if rng.bool() { None } else { Some(1) }),
+                _ => WAttr::Fp(if i % 3 == 0 { Some(7) } else { None }),
+            };
+            bytes += match &a {
+                WAttr::Raw(_, v) => 4 + v.len() + (4 - v.len() % 4) % 4,
+                WAttr::Mi(..) => 24,
+                WAttr::Mi256(..) => 36,
+                _ => 8,
+            };
+            if bytes > 65_000 {
+                break;
+            }
+            attrs.push(a);
+        }
+        let txid = gen::txid(rng);
+        let mut b = wire::build_raw(gen::method(rng), rng.below(4) as u8, &txid, &attrs, &mut wire::Zero);
+        if case % 3 == 0 {
+            let (m, _) = mutate::mutate(rng, &b, &d);
+            b = m;
+        }
+        ctx.count("wide.messages");
+        ctx.count_n("wide.attributes", attrs.len() as u64);
+        decode_everything(ctx, &b, &key, rng, "wide");
+        ctx.eval(Some(fnv64(&b)));
+    });
+
     // (c) random bytes up to 64 KiB
     let n = ctx.n(2_000, 300_000);
     ctx.cases("random-bytes", n, |ctx, _case, rng| {
